@@ -62,6 +62,10 @@ func VerifC04_limit_run() {
 	e := vLimitSetup()
 	M := vParam("M", 3)
 	d := e.d
+	vSleepBudget(M + 2)
+	vExpect("HORIZON", "fail:C12: the discipline keeps pausing without forwarding the elements it was given / without closing its output")
+	vExpect("BUDGET", "fail:C12: the discipline spins without forwarding the elements it was given")
+	vExpect("BLOCKED", "fail:C12: the discipline blocks for ever although its input was closed")
 	vTermWatch(d.output)
 	vRunSpawned(0) // the goroutine New started: main
 	vRunLeftoverSpawned()
